@@ -20,6 +20,8 @@ func init() {
 	addMutants(
 		Mutant{"C26", "decode-row-removed", "internal/recordstore/path.go",
 			"	re = strings.ReplaceAll(re, \"%f\", \"([0-9]{6})\")\n", "", "C26.tables"},
+		Mutant{"C26", "scan-list-entry-removed", "internal/recordstore/path.go",
+			"			\"%f\",\n", "", "C26.tables"},
 		Mutant{"C26", "width-mismatch", "internal/recordstore/path.go",
 			"leadingZeros(p.Start.Nanosecond()/1000, 6)", "leadingZeros(p.Start.Nanosecond()/1000, 5)", "C26.width"},
 		Mutant{"C26", "hour-minute-swapped", "internal/recordstore/path.go",
@@ -73,49 +75,9 @@ func c26TimeComp(v ssa.Value) (comp string, scale int64, ok bool) {
 	return strings.TrimPrefix(n, "(time.Time)."), scale, true
 }
 
-// arrayConsts returns the constants stored into the elements of an array
-// literal (Alloc of an array type) by constant index.
-func arrayConsts(a *ssa.Alloc) map[int64]*ssa.Const {
-	out := map[int64]*ssa.Const{}
-	for _, r := range *a.Referrers() {
-		ia, ok := r.(*ssa.IndexAddr)
-		if !ok {
-			continue
-		}
-		idx, ok := constBig(ia.Index)
-		if !ok {
-			continue
-		}
-		for _, rr := range *ia.Referrers() {
-			if st, ok := rr.(*ssa.Store); ok && st.Addr == ssa.Value(ia) {
-				if cv, ok := st.Val.(*ssa.Const); ok {
-					out[idx.Int64()] = cv
-				}
-			}
-		}
-	}
-	return out
-}
-
-// elemOfArrayLit: v is (a conversion of) a load of an element of a sliced
-// array literal; returns the literal's Alloc.
-func elemOfArrayLit(v ssa.Value) *ssa.Alloc {
-	v = stripConv(v)
-	u, ok := v.(*ssa.UnOp)
-	if !ok || u.Op != token.MUL {
-		return nil
-	}
-	ia, ok := u.X.(*ssa.IndexAddr)
-	if !ok {
-		return nil
-	}
-	x := ia.X
-	if sl, ok := x.(*ssa.Slice); ok {
-		x = sl.X
-	}
-	a, _ := x.(*ssa.Alloc)
-	return a
-}
+// The constant tables Decode iterates (escape characters, placeholders) are
+// resolved by c26ElemTable (prop_gen_c26.go): a local literal, a local variable
+// or a package-level slice/array variable that nothing writes.
 
 // rootsThroughSlices follows Slice operands and phi edges to the root values.
 func rootsThroughSlices(v ssa.Value, seen map[ssa.Value]bool, out map[ssa.Value]bool) {
@@ -275,7 +237,9 @@ func runC26(c *Ctx) {
 	c26LengthTables(c, p, decRe)
 
 	// escape loop: base of the chain is phi(format | ReplaceAll(phi, string(ch), "\\"+string(ch)))
-	var escAlloc *ssa.Alloc
+	// the table of characters is a constant table wherever it is declared (local
+	// literal, local variable, package-level slice or array: prop_gen_c26.go)
+	var escAlloc *c26Table
 	baseOK := false
 	if ph, ok := cur.(*ssa.Phi); ok && len(ph.Edges) == 2 {
 		var loopCall *ssa.Call
@@ -288,18 +252,18 @@ func runC26(c *Ctx) {
 			}
 		}
 		if hasFormat && loopCall != nil && loopCall.Call.Args[0] == ssa.Value(ph) {
-			escAlloc = elemOfArrayLit(loopCall.Call.Args[1])
+			escAlloc = c26ElemTable(p, loopCall.Call.Args[1])
 			// replacement is "\\" + string(ch) of the same element
 			if b, ok := loopCall.Call.Args[2].(*ssa.BinOp); ok && b.Op == token.ADD {
 				bs, isC := ssaConstString(b.X)
-				baseOK = isC && bs == "\\" && escAlloc != nil && elemOfArrayLit(b.Y) == escAlloc && desc(b.Y) == desc(loopCall.Call.Args[1])
+				baseOK = isC && bs == "\\" && escAlloc != nil && escAlloc.same(c26ElemTable(p, b.Y)) && desc(b.Y) == desc(loopCall.Call.Args[1])
 			}
 		}
 	}
 	c.Check("C26.escape", "Path.Decode: placeholder substitution starts from the format escaped by ReplaceAll(re, string(ch), \"\\\\\"+string(ch)) over a constant table", baseOK,
 		p.Pos(mc.Pos()), "chain base: "+trunc(desc(cur), 200))
 	if escAlloc != nil {
-		tab := arrayConsts(escAlloc)
+		tab := escAlloc.consts
 		set := map[byte]int64{}
 		for idx, cv := range tab {
 			if n, ok := constBig(cv); ok {
@@ -314,11 +278,11 @@ func runC26(c *Ctx) {
 			}
 			nSpecial++
 			_, has := set[byte(ch)]
-			c.Check("C26.escape", fmt.Sprintf("Path.Decode: regexp metacharacter %q of the format is escaped", s), has, p.Pos(escAlloc.Pos()), "")
+			c.Check("C26.escape", fmt.Sprintf("Path.Decode: regexp metacharacter %q of the format is escaped", s), has, p.Pos(escAlloc.pos), "")
 		}
 		c.Floor("C26.escape.metachars", nSpecial, 14)
 		if idx, has := set['\\']; has {
-			c.Check("C26.escape", "Path.Decode: backslash is escaped before any other character", idx == 0, p.Pos(escAlloc.Pos()), fmt.Sprintf("index %d", idx))
+			c.Check("C26.escape", "Path.Decode: backslash is escaped before any other character", idx == 0, p.Pos(escAlloc.pos), fmt.Sprintf("index %d", idx))
 		}
 		bad := ""
 		for ph := range encT {
@@ -328,7 +292,7 @@ func runC26(c *Ctx) {
 				}
 			}
 		}
-		c.Check("C26.escape", "Path.Decode: no character of a placeholder is escaped", bad == "", p.Pos(escAlloc.Pos()), bad)
+		c.Check("C26.escape", "Path.Decode: no character of a placeholder is escaped", bad == "", p.Pos(escAlloc.pos), bad)
 	}
 
 	// ---------- groupMapping scan list and alignment
@@ -338,8 +302,8 @@ func runC26(c *Ctx) {
 	alignDetail := ""
 	if len(hps) == 1 {
 		hp := hps[0].(*ssa.Call)
-		if a := elemOfArrayLit(hp.Call.Args[1]); a != nil {
-			tab := arrayConsts(a)
+		if a := c26ElemTable(p, hp.Call.Args[1]); a != nil {
+			tab := a.consts
 			for k := int64(0); k < int64(len(tab)); k++ {
 				if s, ok := ssaConstString(tab[k]); ok {
 					scanList = append(scanList, s)
